@@ -79,7 +79,10 @@ class Collector:
         for f in verdict.get("features", []):
             self.features[f] += 1
         for k, v in (verdict.get("counters") or {}).items():
-            self.extra[k] += v
+            if k.startswith("excluded:"):
+                self.excluded[k[9:]] += v  # steering done inside the forked child
+            else:
+                self.extra[k] += v
         for f in verdict.get("failures", []):
             if len(self.failures) < 400:
                 self.failures.append((case, f))
